@@ -87,6 +87,13 @@ class C06(runner.Check):
       else:
         kind = rng.choice(['raise:' + rng.choice(P.EXCEPTION_TYPES)] * 3 + ['bad-delta', 'no-decision'])
       faults.append({'site': site, 'at': at, 'kind': kind})
+    net_faults = []
+    if deploy_kind == 'split' and rng.random() < 0.5:
+      # The algorithm call itself fails in transit: request or response of the
+      # Vizier -> remote Pythia RPC is lost (UNAVAILABLE at the Vizier server).
+      for _ in range(rng.choice([1, 1, 2])):
+        net_faults.append({'method': rng.choice(['PythiaService/Suggest', 'PythiaService/Suggest', 'PythiaService/EarlyStop']),
+                           'at': rng.choice([1, 1, 2, 3, [1, 2]]), 'kind': rng.choice(['req_lost', 'resp_lost'])})
     workers = rng.choice([1, 2, 3])
     ss = {'o': 0, 'd': 0}
     ops = [['CreateStudy', {'o': 0, 'd': 0, 'state': 'ACTIVE'}]]
@@ -118,10 +125,10 @@ class C06(runner.Check):
     ops.append(['CheckES', {'study': ss, 'trial': {'pref': 'active', 'i': rng.randrange(4)}}])
     ops.append(['CompleteTrial', {'study': ss, 'trial': {'pref': 'active', 'i': 0}, 'ckind': 'final', 'v': 1}])
     ops.append(['SuggestTrials', {'study': ss, 'n': 6, 'worker': 0}])
-    return {'cfg': cfg, 'faults': faults, 'entropy': rng.randrange(2**31), 'ops': ops}
+    return {'cfg': cfg, 'faults': faults, 'net_faults': net_faults, 'entropy': rng.randrange(2**31), 'ops': ops}
 
   def shrink_lists(self, plan):
-    return ['ops', 'faults']
+    return ['ops', 'faults', 'net_faults']
 
   def simplify(self, plan):
     for i, f in enumerate(plan['faults']):
@@ -140,6 +147,7 @@ class C06(runner.Check):
     clk = simclock.SimClock(epoch=cfg.get('epoch', simclock.EPOCH))
     ent = simclock.Entropy(plan.get('entropy', 0))
     net = simnet.Net(clk)
+    net.method_faults = [dict(f) for f in plan.get('net_faults', [])]
     factory = P.FaultyFactory(P.base_factory(cfg), plan.get('faults', []))
     polls = [0]
     with simclock.installed(clk, ent), simnet.installed(net):
@@ -179,14 +187,16 @@ class C06(runner.Check):
         continue
       if kind == 'FaultsOff':
         factory.enabled = False
+        dep.net.enabled = False
         continue
       c = O.resolve(op if kind != 'ClientSuggest' else ['SuggestTrials', op[1]], O.View(sv))
       c['kind'] = kind
       pre = O.snapshot(sv, include_ops=False)
       _, es_pre = scan_operations(sv, pre, suggestion=False)
       calls0 = dict(factory.calls)
-      fired0 = sum(factory.fired.values())
+      fired0 = sum(factory.fired.values()) + sum(dep.net.fired.values())
       fired_map0 = dict(factory.fired)
+      net_map0 = dict(dep.net.fired)
       polls[0] = 0
       hang = False
       if kind == 'ClientSuggest':
@@ -204,10 +214,11 @@ class C06(runner.Check):
           res.bump('probe.client-polled')
       else:
         out = O.outcome_norm(kind, O.execute(svc, c, cfg))
-      fired_now = sum(factory.fired.values()) - fired0
+      fired_now = sum(factory.fired.values()) + sum(dep.net.fired.values()) - fired0
       reached = {k: factory.calls[k] - calls0[k] for k in calls0}
       res.bump('op.' + kind)
-      fault_now = '+'.join(sorted(k for k, v in factory.fired.items() if v > fired_map0.get(k, 0))) or 'none'
+      fault_now = '+'.join(sorted([k for k, v in factory.fired.items() if v > fired_map0.get(k, 0)]
+                                  + ['net:' + k for k, v in dep.net.fired.items() if v > net_map0.get(k, 0)])) or 'none'
       classes.append((kind, out[0] if out[0] == 'ok' else out[1], bool(fired_now)))
       res.log.append([O.jsonable(c), O.jsonable(out), fired_now, reached])
       if fired_now:
@@ -232,7 +243,7 @@ class C06(runner.Check):
         if w in fault_workers and not fired_now:
           followup_same = True
           res.bump('probe.followup-same-worker')
-        if need > 0 and reached['suggest'] < 1 and not hang:
+        if need > 0 and reached['suggest'] < 1 and not hang and not fired_now:  # (a request lost in transit cannot reach it)
           viol.append(('algorithm-not-reached',
                        f'{kind} by {w} needs {need} new suggestions but the algorithm was not invoked; outcome {out[:2]}'))
         if fired_now:
@@ -277,7 +288,7 @@ class C06(runner.Check):
             if age > cfg.get('recycle_s', 60.0) + 1.0:
               must = f'operation is {age:.0f}s old'
               res.bump('probe.early-stop-recycled')
-          if must and reached['early_stop'] < 1:
+          if must and reached['early_stop'] < 1 and not fired_now:
             viol.append(('early-stop-algorithm-not-reached', f'CheckES trial {c["trial"]}: {must} but the algorithm was not invoked; outcome {out[:2]}'))
           if fired_now:
             res.bump('probe.early-stop-fault-fired')
@@ -306,7 +317,9 @@ class C06(runner.Check):
           res.violate(clause, f'step {step}: {detail}', sig=dict(sig_base, kind=kind, fault=fault_now), step=step)
         del kinds
         break
-    total_fired = sum(factory.fired.values())
+    total_fired = sum(factory.fired.values()) + sum(dep.net.fired.values())
+    for k, v in dep.net.fired.items():
+      res.bump('fault.net:' + k + '@pythia-link/' + deployment, v)
     for k, v in factory.fired.items():
       res.bump('fault.' + k + '/' + deployment, v)
     fkinds = tuple(sorted((f['site'], f['kind'], str(f['at'])) for f in plan.get('faults', [])))
